@@ -23,14 +23,20 @@ func init() {
 
 		// ---- TimeStampReq.SanityCheckToken: order of the checks and the two comparisons
 		scLeaves := map[string]string{"info.Nonce": "info_nonce", "info.MessageImprint.HashedMessage": "info_hashed",
-			"req.MessageImprint.HashedMessage": "req_hashed"}
+			"req.MessageImprint.HashedMessage": "req_hashed",
+			"req.Nonce != nil": "req_has_nonce", "req.Nonce == nil": "(negb req_has_nonce)",
+			"info.Nonce == nil": "(negb info_has_nonce)", "info.Nonce != nil": "info_has_nonce"}
 		scCalls := map[string]string{"req.Nonce.Cmp": "cmp3 req_nonce", "hmac.Equal": "bytes_eqb"}
 		scTypes := map[string]string{"hmac.Equal()": "bool"}
 		o.callOrder(d, "TimeStampReq", "SanityCheckToken", "sanity_order", []string{"Verify", "unpackTokenInfo", "Cmp", "Equal"})
+		// info_nonce is only meaningful when info_has_nonce (Go's || and && are lazy: Cmp is not reached on a nil nonce)
 		o.condOf(funcSpec{dir: d, recv: "TimeStampReq", name: "SanityCheckToken", coqName: "nonce_mismatch",
-			params: "(req_nonce info_nonce : Z)", retType: "bool", leaves: scLeaves, calls: scCalls, types: scTypes}, "if:req.Nonce")
+			params: "(req_has_nonce info_has_nonce : bool) (req_nonce info_nonce : Z)", retType: "bool", leaves: scLeaves, calls: scCalls, types: scTypes}, "if:req.Nonce")
 		o.condOf(funcSpec{dir: d, recv: "TimeStampReq", name: "SanityCheckToken", coqName: "imprint_mismatch",
 			params: "(info_hashed req_hashed : bytes)", retType: "bool", leaves: scLeaves, calls: scCalls, types: scTypes}, "if:HashedMessage")
+		// unpackTokenInfo: empty content is rejected before infobytes[0] is read
+		o.condOf(funcSpec{dir: d, recv: "", name: "unpackTokenInfo", coqName: "info_empty",
+			params: "(content_len : Z)", retType: "bool", leaves: map[string]string{"len(infobytes)": "content_len"}}, "if:len(infobytes)")
 
 		// ---- tsClient.Timestamp: imprint computation, the failover loop and the final error
 		tsLeaves := map[string]string{"req.Legacy": "legacy",
